@@ -25,7 +25,7 @@ type c03 struct{ base }
 func init() {
 	core.Register(c03{base{id: "C03", level: "exploration", quickB: 16, thoroughB: 32,
 		rule:        "four monitors (the fourth, framing probes: messages of every type with arbitrary non-fatal bodies - oversized with lengths around multiples of L, unknown types, Sync/Flush/Close/Query with surplus, stray COPY messages, failing extended messages - interleaved with numbered probes Sync + Query; every probe must reach the parser exactly once and in order). (1) segmentation metamorphism: generated client byte streams (optional SSLRequest/N, startup, optional password, simple/extended/COPY traffic, surplus-carrying and truncated messages, optionally cut short at a random offset) are delivered under 6 (quick) / 12 (thorough) segmentations - all at once, one byte per read, cuts inside every message header, PRNG cut sets - and the normalised transcript + callback trace must be identical. (2) surplus isolation: Query/Parse/Bind/Describe/Execute/Close/Sync/Flush/CopyDone messages get surplus bytes appended inside their declared length (sentinel text, bytes that parse as a binary COPY row or as another protocol message); the transcript and every callback argument must equal the run without surplus and never contain the sentinel. (3) accessor cursor: buffer.Reader positioned on a generated body followed by a sentinel 'next message'; random sequences of GetString/GetBytes(n>=0)/GetUint16/GetUint32/GetPrepareType are compared with an independent cursor over the body (values, errors, no read beyond the message, no panic; checkptr build, child process). Non-trivial = stream with >= 3 messages and a cut inside a header, surplus case, or accessor sequence hitting the end of the body; distinct = stream shape / surplus placement / accessor sequence shape.",
-		need:        []string{"streams", "segmentations_compared", "cuts_inside_headers", "surplus_cases", "accessor_sequences", "accessor_calls_compared", "accessor_short_data_errors", "truncated_streams", "framing_probes_seen"},
+		need:        []string{"streams", "segmentations_compared", "cuts_inside_headers", "surplus_cases", "accessor_sequences", "accessor_calls_compared", "accessor_short_data_errors", "truncated_streams", "framing_probes_seen", "granule_positions"},
 		assumptions: append([]string{"ParameterStatus runs are compared as multisets (the library iterates a Go map); after an accessor returned an error the rest of that sequence is not judged"}, commonAssumptions...)}})
 }
 
@@ -136,6 +136,58 @@ func (ch c03) Run(c *core.Ctx) {
 		}
 		ch.framing(c, envPlain, core.NewRng(c.Seed, "C03f", c.Batch, i), i)
 	}
+	// granule sweep: a filler message of every length in a window around the 4 KiB and 8 KiB
+	// allocation granules, then a message with an unread tail, then ordinary messages - the
+	// position of a message inside the reader's allocation must not matter
+	nb := ch.Batches(c.Tier)
+	var fillers []int
+	for f := 3900; f <= 4200; f++ {
+		fillers = append(fillers, f)
+	}
+	for f := 8000; f <= 8300; f += 1 {
+		fillers = append(fillers, f)
+	}
+	for k, f := range fillers {
+		if k%nb != c.Batch || !c.Begin(400000+k) || c.NViol() >= 10 {
+			continue
+		}
+		ch.granule(c, envPlain, f, k)
+	}
+}
+
+func (ch c03) granule(c *core.Ctx, env *hs.Env, filler int, k int) {
+	probe := &hs.Prog{Stmts: []*hs.Stmt{{ID: "probe", Cols: textCols(1), Params: []oid.Oid{}, Ops: []hs.Op{{K: "row", Vals: []any{"p"}}, {K: "complete", Tag: "SELECT 1"}}}}}
+	sess := &hs.Sess{Default: func(string) *hs.Prog { return probe }}
+	cl := hs.NewClient(env.Dial(sess))
+	if err := cl.StartupOK("u"); err != nil {
+		return
+	}
+	cs := map[string]any{"filler_bytes": filler}
+	tails := [][]byte{
+		pg.Parse("s", "with unread oids", []uint32{23, 25}),                 // 8 unread bytes
+		pg.Raw('S', []byte("surplus-in-sync")),                              // unread surplus
+		pg.Raw('E', append([]byte("nosuch\x00"), 0, 0, 0, 0, 1, 2, 3, 4, 5)), // surplus behind the row limit
+	}
+	in := pg.Query(strings.Repeat("f", filler))
+	in = append(in, tails[k%len(tails)]...)
+	in = append(in, pg.Sync()...)
+	in = append(in, pg.Query("after the tail "+strings.Repeat("x", k%40))...)
+	in = append(in, pg.Parse("t", "second", []uint32{1, 2, 3})...)
+	in = append(in, pg.Bind("", "t", nil, nil, nil)...)
+	in = append(in, pg.Execute("", 0)...)
+	in = append(in, pg.Sync()...)
+	out, closed := cl.Step(in)
+	if hangCheck(c, cl, cs) {
+		return
+	}
+	c.Count("granule_positions", 1)
+	c.Eval(fmt.Sprintf("granule filler=%d tail=%d", filler, k%len(tails)), true)
+	t := pg.Types(mustMsgs(out))
+	want := map[int]string{0: "TDCZ" + "1Z" + "TDCZ" + "12DCZ", 1: "TDCZ" + "ZZ" + "TDCZ" + "12DCZ", 2: "TDCZ" + "EZ" + "TDCZ" + "12DCZ"}[k%len(tails)]
+	if closed || t != want {
+		c.Violate("granule", "the outcome depends on where a message lies inside the reader's allocation", fmt.Sprintf("filler of %d bytes, unread-tail variant %d: transcript %q closed=%v, want %q", filler, k%len(tails), t, closed, want), cs)
+	}
+	cl.Finish()
 }
 
 // framing: messages of every type with arbitrary (non-fatal) bodies - oversized, unknown types,
